@@ -43,7 +43,7 @@ typedef struct {
   int decorated;
 } cg_line;
 
-#define CG_MAXLINES 8
+#define CG_MAXLINES 12
 static cg_line cg_l[CG_MAXLINES];
 static int cg_n;
 static int cg_final_nl = 1;
@@ -254,6 +254,20 @@ static void cg_gen_line(int i)
   snprintf(l->text, sizeof l->text, "%s", b.s); sb_free(&b);
 }
 
+/* lines built directly (families with a fixed shape): default separator, no decoration */
+static void cg_make_header(int i, const char *name)
+{
+  cg_line *l = &cg_l[i]; memset(l, 0, sizeof *l);
+  l->kind = LK_HEADER; snprintf(l->sname, sizeof l->sname, "%s", name); snprintf(l->text, sizeof l->text, "[%s]", name);
+}
+static void cg_make_entry(int i, const char *key, const char *val)
+{
+  cg_line *l = &cg_l[i]; memset(l, 0, sizeof *l);
+  l->kind = LK_ENTRY; snprintf(l->key, sizeof l->key, "%s", key);
+  if (cg.cls == CLS_NONE) snprintf(l->text, sizeof l->text, "%s", key);
+  else { snprintf(l->val, sizeof l->val, "%s", val); snprintf(l->text, sizeof l->text, "%s%s%s", key, cgt.seps[0], val); }
+}
+
 /* generate a whole file of exactly n lines */
 static void cg_gen_file(int n)
 {
@@ -274,7 +288,7 @@ static void cg_render(sbuf *b)
 }
 
 /* ------------------------------------------------------------------ expected parse */
-#define CG_MAXENT 8
+#define CG_MAXENT 12
 typedef struct {
   int sec;                 /* index into sections, -1 = group-less */
   char key[32];
